@@ -614,7 +614,7 @@ fn run_two(a: Vec<Op>, b: Vec<Op>, sched: &[usize]) -> String {
             timeout = true;
             break;
         }
-        if dones[i].recv_timeout(Duration::from_secs(10)).is_err() {
+        if dones[i].recv_timeout(Duration::from_secs(120)).is_err() {
             timeout = true;
             break;
         }
